@@ -137,6 +137,13 @@ func childMain(args []string) int {
 			if sc != nil {
 				_ = bx.ForceMerge(sc)
 			}
+		case "cancelmerge":
+			// a forced merge whose context is already cancelled: the merge is abandoned
+			if sc != nil {
+				ctx, cancel := context.WithCancel(context.Background())
+				cancel()
+				_ = sc.ForceMerge(ctx, nil)
+			}
 		case "close":
 			if err := idx.Close(); err != nil {
 				rec.Emit("CloseErr", map[string]any{"err": err.Error()})
